@@ -891,7 +891,11 @@ class FortranReaderBase:
                     return item
                 reader.info("including file %r" % (path), item)
                 self.reader = FortranFileReader(
-                    path, include_dirs=include_dirs, ignore_comments=ignore_comments
+                    path,
+                    include_dirs=include_dirs,
+                    ignore_comments=ignore_comments,
+                    include_omp_conditional_lines=self._include_omp_conditional_lines,
+                    process_directives=self.process_directives,
                 )
                 result = self.reader.next(ignore_comments=ignore_comments)
                 return result
